@@ -1787,3 +1787,119 @@ fn st_send_stored_limit_v5() {
     core::mem::forget(ev);
     core::mem::forget(c);
 }
+
+// PUBREL sent by the application: connected (sent, PUBCOMP awaited) or queued on a persistent session while not connected
+#[kani::proof]
+#[kani::unwind(7)]
+fn st_send_pubrel_states_v311() {
+    let mut c = CC::new(Version::V3_1_1);
+    c.is_client = true;
+    let st: u8 = kani::any();
+    kani::assume(st <= 2);
+    c.status = match st {
+        0 => ConnectionStatus::Disconnected,
+        1 => ConnectionStatus::Connecting,
+        _ => ConnectionStatus::Connected,
+    };
+    c.need_store = kani::any();
+    let ka: u16 = kani::any();
+    c.pingreq_keep_alive_ms = ka as u64 * 1000;
+    c.pingreq_send_set = st != 0 && ka != 0;
+    let k: u16 = kani::any();
+    kani::assume(k != 0);
+    c.pid_man.register_id(k).unwrap();
+    let pre = tm_of(&c);
+    kani::cover!(st == 0 && c.need_store, "PUBREL queued between two connections of a persistent session");
+    let ev = c.process_send_v3_1_1_pubrel(mk_pubrel311(k));
+    monitor(pre, &ev, &c);
+    let allowed = st == 2 || c.need_store;
+    if allowed {
+        assert!(count(&ev, is_any_err) == 0 && (count(&ev, is_send) == 1) == (st == 2), "[C11] PUBREL passed to the transport exactly when connected");
+        assert!(c.pid_man.is_used_id(k), "[C06] the identifier is held until PUBCOMP");
+        assert!(sth::has(&c.store, k) == c.need_store, "[C06] on a persistent session every PUBREL is stored");
+        assert!(c.pid_pubcomp.contains(&k), "[C06] an accepted PUBREL waits for its PUBCOMP (also when it is sent later from the store)");
+    } else {
+        assert!(ev.len() == 1 && is_err(&sm(&ev, 0), MqttError::PacketNotAllowedToSend), "[C11] PUBREL refused while not connected on a non-persistent session");
+        assert!(!sth::has(&c.store, k) && !c.pid_pubcomp.contains(&k), "[C11] refused send records nothing");
+    }
+    core::mem::forget(ev);
+    core::mem::forget(c);
+}
+
+// =================================================================== C12: retransmitted stored packets count; inbound limit
+#[kani::proof]
+#[kani::unwind(7)]
+#[kani::stub(core::str::from_utf8, utf8_model)]
+fn st_send_connack_v5_resume_count() {
+    set_detail(true);
+    // server that received CONNECT(Receive Maximum M, Session Expiry > 0) and holds one stored QoS1 PUBLISH
+    let mut c = SC::new(Version::V5_0);
+    c.status = ConnectionStatus::Connecting;
+    c.need_store = true;
+    let m: u16 = kani::any();
+    kani::assume(m >= 1);
+    c.publish_send_max = Some(m);
+    c.publish_send_count = 0;
+    let i: u16 = kani::any();
+    kani::assume(i != 0);
+    c.pid_man.register_id(i).unwrap();
+    c.pid_puback.insert(i);
+    c.store.add(mk_pub5(1, i, true).try_into().unwrap()).unwrap();
+    let pre = tm_of(&c);
+    let connack = v5_0::Connack::parse(&[1, 0, 0]).unwrap().0;
+    let ev = c.process_send_v5_0_connack(connack);
+    monitor(pre, &ev, &c);
+    assert!(c.status == ConnectionStatus::Connected && ev.len() == 2, "[C06] CONNACK then the stored packet");
+    assert!(is_send(&sm(&ev, 0)) && sm(&ev, 0).pkt.ptype == 2, "[C06] CONNACK goes out first");
+    let e = sm(&ev, 1);
+    assert!(is_send(&e) && e.pkt.ptype == 3 && e.pkt.id == i as u32 && e.pkt.dup, "[C06] stored PUBLISH re-sent right after the CONNACK with DUP set");
+    assert!(c.get_receive_maximum_vacancy_for_send() == Some(m - 1), "[C12] a retransmitted stored exchange counts against the peer's Receive Maximum");
+    // its acknowledgement then completes the exchange without wrapping
+    let raw = pbh::verif_raw(0x40, &[(i >> 8) as u8, i as u8]);
+    let pre2 = tm_of(&c);
+    let ev2 = c.process_recv_v5_0_puback(raw);
+    monitor(pre2, &ev2, &c);
+    assert!(c.get_receive_maximum_vacancy_for_send() == Some(m), "[C12] vacancy returns to M when all exchanges complete");
+    assert!(count(&ev2, |x| is_released(x, i)) == 1, "[C08] id released by the PUBACK");
+    core::mem::forget(ev);
+    core::mem::forget(ev2);
+    core::mem::forget(c);
+}
+
+#[kani::proof]
+#[kani::unwind(7)]
+#[kani::stub(core::str::from_utf8, utf8_model)]
+fn st_recv_publish_v5_recv_max() {
+    set_detail(true);
+    let mut c = fam_client_connected(Version::V5_0);
+    c.auto_pub_response = false;
+    // locally announced Receive Maximum 2, peer has a and b outstanding (or only a)
+    c.publish_recv_max = Some(2);
+    let a: u16 = kani::any();
+    let b: u16 = kani::any();
+    kani::assume(a != 0 && b != 0 && a != b);
+    c.publish_recv.insert(a);
+    let full: bool = kani::any();
+    if full {
+        c.publish_recv.insert(b);
+    }
+    let r: u16 = kani::any();
+    kani::assume(r != 0 && r != a && r != b);
+    let q2: bool = kani::any();
+    let pre = tm_of(&c);
+    let body: [u8; 7] = [0, 1, b't', (r >> 8) as u8, r as u8, 0, 0x55];
+    let raw = pbh::verif_raw(if q2 { 0x34 } else { 0x32 }, &body);
+    let ev = c.process_recv_v5_0_publish(raw);
+    monitor(pre, &ev, &c);
+    if full {
+        let n = ev.len();
+        assert!(count(&ev, is_recv) == 0, "[C12] a PUBLISH beyond the announced Receive Maximum is not delivered");
+        assert!(n >= 3 && is_send(&sm(&ev, n - 3)) && sm(&ev, n - 3).pkt.ptype == 14 && sm(&ev, n - 3).pkt.rc == 0x93, "[C12] answered with DISCONNECT Receive Maximum exceeded");
+        assert!(is_close(&sm(&ev, n - 2)) && is_err(&sm(&ev, n - 1), MqttError::ReceiveMaximumExceeded), "[C19] then close, then the error");
+        assert!(!c.publish_recv.contains(&r) && !c.qos2_publish_handled.contains(&r), "[C12] the excess message leaves no trace");
+    } else {
+        assert!(count(&ev, is_recv) == 1 && count(&ev, is_any_err) == 0 && c.publish_recv.contains(&r), "[C12] within the limit: delivered and counted");
+    }
+    core::mem::forget(ev);
+    core::mem::forget(c);
+}
